@@ -65,6 +65,13 @@ impl Set {
     }
 }
 
+#[cfg(loom_verif)]
+impl Set {
+    pub(crate) fn verif_len(&self) -> usize {
+        self.statics.as_ref().map(|s| s.len()).unwrap_or(0)
+    }
+}
+
 impl StaticKeyId {
     fn new<T>(key: &'static crate::lazy_static::Lazy<T>) -> Self {
         Self(key as *const _ as usize)
